@@ -383,7 +383,8 @@ Theorem Resolve_no_panic re_ok fuel root baseURI loader :
   Resolve re_ok fuel root baseURI loader <> Panic.
 Proof.
   intros Hroot Hload. unfold Resolve.
-  destruct (match baseURI with [] => POk empty_uri | _ => parse_uri baseURI end) as [base| |]; try discriminate.
+  destruct (match baseURI with [] => POk empty_uri | _ => parse_uri baseURI end) as [base0| |]; try discriminate.
+  set (base := norm_base baseURI base0) in *; clearbody base.
   pose proof (resolve_doc_total re_ok loader (detectDraft7 root) Hload fuel (mkR [] [] [] []) root base) as H.
   destruct (resolve_doc re_ok loader (detectDraft7 root) fuel (mkR [] [] [] []) root base) as [[st d]| | |]; cbn [bind step_res] in H |- *; try discriminate.
   exfalso. apply H; [|exact Hroot]. split; cbn [r_cache r_docs]; [intros u k Hl; discriminate|intros [|k] dk Hk; discriminate].
@@ -574,7 +575,8 @@ Proof.
   pose proof (Resolve_no_panic re_ok fuel root baseURI loader Hroot Hload) as Hnp.
   assert (Hnf : Resolve re_ok fuel root baseURI loader <> OutOfFuel).
   { unfold Resolve.
-    destruct (match baseURI with [] => POk empty_uri | _ => parse_uri baseURI end) as [base| |]; try discriminate.
+    destruct (match baseURI with [] => POk empty_uri | _ => parse_uri baseURI end) as [base0| |]; try discriminate.
+  set (base := norm_base baseURI base0) in *; clearbody base.
     pose proof (resolve_doc_fuel re_ok loader (detectDraft7 root) Hload fuel (mkR [] [] [] []) root base Hroot) as H.
     destruct (resolve_doc re_ok loader (detectDraft7 root) fuel (mkR [] [] [] []) root base) as [[st d]| | |]; cbn [bind fuel_res] in H |- *; try discriminate.
     exfalso. apply H. eapply Nat.le_lt_trans; [|exact Hfuel]. unfold pend_after.
@@ -693,7 +695,8 @@ Theorem Resolve_loads_once re_ok fuel root baseURI loader e calls :
   Resolve re_ok fuel root baseURI loader = Ok (e, calls) -> NoDup calls.
 Proof.
   unfold Resolve. intros H.
-  destruct (match baseURI with [] => POk empty_uri | _ => parse_uri baseURI end) as [base| |]; try discriminate.
+  destruct (match baseURI with [] => POk empty_uri | _ => parse_uri baseURI end) as [base0| |]; try discriminate.
+  set (base := norm_base baseURI base0) in *; clearbody base.
   destruct (resolve_doc re_ok loader (detectDraft7 root) fuel (mkR [] [] [] []) root base) as [[st d]| | |] eqn:Er; cbn [bind] in H; try discriminate.
   injection H as _ <-. apply resolve_doc_once in Er; [exact (proj1 (proj1 Er))|].
   split; cbn [r_calls]; [constructor|intros u []].
